@@ -31,6 +31,11 @@ def whitening(ctx):
                                   L.spec_whitening_fit, L.facts(), "C14.white.%s%s" % (kind, ".pinv" if pinv else ""), state_names={0: "self"},
                                   structural=False)
             out += cl
+    # a single feature (np.cov returns a 0-d array there)
+    I = new_interp()
+    cl = K.check_function(I, "whitening.Whitening.fit", lambda: ([mk_obj(I, "Whitening"), input_arr("X", (L.Nn, ONE))], {}),
+                          L.spec_whitening_fit, L.facts(), "C14.white.numpy.single-feature", state_names={0: "self"}, structural=False)
+    out += cl
     # transform = (X - mu) @ W
     I = new_interp()
 
@@ -59,9 +64,31 @@ def wccn(ctx):
             IN.LabelSet.count = 0
             return [mk_obj(I, "WCCN"), input_arr("X", (L.Nn, L.Dd), kind), input_arr("y", (L.Nn,), dtype="int")], {}
 
+        enum_name = ["pi1"]
+
         def spec(ctx_, self, X, y):
-            pi = lambda k: T.app("pi1", k, sort="int")
+            # the contract holds for ANY enumeration of the classes used consistently: take the one the code used
+            pi = lambda k: T.app(enum_name[0], k, sort="int")
             return L.spec_wccn_fit(ctx_, self, X, y, pi=pi, K=T.sym("K_pi1", "int"))
+        # which enumeration(s) of the label set does the code use?
+        try:
+            probe = I.run_paths(lambda: I.call(K.lookup(I, "wccn.WCCN.fit"), *build()))
+            names = set()
+            from vt.loops import _appnames
+            for pc, (k_, r_) in probe:
+                if k_ == "ok":
+                    w_ = r_.fields.get("weights")
+                    if isinstance(w_, Arr):
+                        names |= {n for n in _appnames(P(w_.fn(T.fresh("q"), T.fresh("q")))) if n.startswith("pi") or n.startswith("sorted:")}
+            if len(names) == 1:
+                enum_name[0] = names.pop()
+            elif len(names) > 1:
+                out.append(Clause("C14.wccn.%s.result.weights" % kind, "refuted", "npsym",
+                                  "the class means and the scatter loop enumerate the classes in two different orders (%s): "
+                                  "a class is centred on another class's mean whenever the two orders differ" % ", ".join(sorted(names)),
+                                  witness={"enumerations": sorted(names)}))
+        except ModelError:
+            pass
         F = L.facts()
         F.dims.add("K_pi1")
         F.pos_syms.add("K_pi1")
@@ -160,9 +187,10 @@ def lemmas(ctx):
 GROUPS = [guard(whitening), guard(wccn), guard(partition_only), guard(dask_same)]
 BOUNDED = [guard(lemmas)]
 SHARED = []
-REPLAY = [("C14.wccn", "linear_repro.py", "wccn", {}), ("C14.white", "linear_repro.py", "whitening", {}), ("C14.dask", "linear_repro.py", "dask", {})]
+REPLAY = [("C14.dask.wccn", "linear_repro.py", "wccn", {}), ("C14.wccn", "linear_repro.py", "wccn", {}), ("C14.white", "linear_repro.py", "whitening", {}), ("C14.dask", "linear_repro.py", "dask", {})]
 TRUSTED = ["scipy/dask cholesky(S, lower=True): lower-triangular L with positive diagonal and L L^T = S for SPD S; inv of SPD is SPD; pinv = inv on full rank",
            "np.cov(X^T) = centred scatter / (N-1); np.mean; matrix product",
            "matrix lemma L^T (L L^T)^-1 L = I (checked by z3 for 1x1 and 2x2 only -- bounded; hence transformed data have identity covariance / scaled within-class scatter)",
            "reindexing of Σ over classes by a bijection (label renaming / set iteration order)"]
 ASSUMPTIONS = ["full-rank data, every class non-empty", "numerical rank and rounding are not decided"]
+XCHECK = ['wccn']
